@@ -541,6 +541,11 @@ def corpus():
             fcall([], [[True, ["r", "ns", "sub", nm]]], [[True, ["r", "ns"]]]),
             fcall(["r"], [[False, ["ns", "sub", nm]]], []),
             ncall(["r"], [False, ["ns"]])]))
+    # a relative target below a relative root that does not exist there but exists one level up under the root's parent:
+    # the file that is found is not below the root; Path.relative_to raises ValueError and nothing catches it
+    out.append(simple_case([(["a", "a", "ns", "X.1.0.dsdl"], False)], [
+        fcall([], [[False, ["a", "ns", "X.1.0.dsdl"]]], [[False, ["a", "ns"]]]),
+        fcall(["a"], [[False, ["a", "ns", "X.1.0.dsdl"]]], [[False, ["a", "ns"]]])]))
     # services: the port range and the name length are those of services
     out.append(simple_case([(["ns", "511.S.1.0.dsdl"], True), (["ns", "512.Q.1.0.dsdl"], True)], [
         fcall([], [[False, ["ns", "511.S.1.0.dsdl"]]], []), fcall([], [[False, ["ns", "512.Q.1.0.dsdl"]]], []), ncall([], [False, ["ns"]])]))
@@ -734,7 +739,7 @@ def nontrivial(case, obs):
 
 def describe(case, obs):
     keys = ["planted:" + case.get("meta", {}).get("planted", "corpus"), "files=%d" % min(len(case["files"]), 12), "calls=%d" % min(len(case["calls"]), 16),
-            "depth-below-root<=%d" % min(max(len(f["p"]) for f in case["files"]) - 2, 6)]
+            "deepest-path-components=%d" % min(max(len(f["p"]) for f in case["files"]), 8)]
     for c, ob in zip(case["calls"], obs["calls"]):
         keys.append("call:%s:%s" % (c["api"], ob["r"]))
         if c["api"] == "files":
